@@ -110,6 +110,9 @@ def scan_trace(prop, path):
                 hist += 1
                 prev = line["st"]
                 continue
+            if line["ev"]["name"] == "restore":
+                prev = line["st"]
+                continue
             lab = classify(prev, line)
             counts[lab.split("/")[0]] = counts.get(lab.split("/")[0], 0) + 1
             if any((lab.startswith(r) if not r.startswith("/") else r in lab) for r in rel):
@@ -153,6 +156,14 @@ def make_traces(prop, tier, seed, workdir, drive):
     s3 = os.path.join(workdir, "s3.ndjson")
     stats["random"] = drive(["random", "-seed", str(seed), "-n", str(n), "-steps", str(steps), "-genesis", "-out", s3])
     traces.append(s3)
+    # S4: exhaustive search of the implementation to a small depth around prepared states
+    from concurrent.futures import ThreadPoolExecutor
+    names = ["answered", "between", "oneshot", "module"] if tier == "quick" else \
+            ["fresh", "inflight", "answered", "paused", "between", "lastbatch", "oneshot", "module", "binding"]
+    with ThreadPoolExecutor(max_workers=8) as ex:
+        res = list(ex.map(lambda n: drive(["explore", "-in", n, "-n", "80000", "-out", os.path.join(workdir, "s4%s.ndjson" % n)]), names))
+    stats["exhaustive_search"] = res
+    traces += [os.path.join(workdir, "s4%s.ndjson" % n) for n in names]
     s2 = os.path.join(workdir, "s2.ndjson")
     stats["tlc_behaviours"] = tlc_behaviours(seed, 150 if tier == "quick" else 1500, 80, workdir, drive, s2)
     traces.append(s2)
